@@ -1,6 +1,11 @@
 package solver
 
-import "github.com/crillab/gophersat/zzvp"
+import (
+	"fmt"
+	"strings"
+
+	"github.com/crillab/gophersat/zzvp"
+)
 
 const vpInf = 1 << 30
 
@@ -213,4 +218,76 @@ func vpSteer(s *Solver) {
 	for v := range s.polarity {
 		s.polarity[v] = zzvp.Bool("phase")
 	}
+}
+
+// VP_C03_optim_opb: optimisation through the OPB syntax, with negative cost
+// coefficients as the syntax accepts them.
+func VP_C03_optim_opb() {
+	zzvp.IntMode(true)
+	n := zzvp.Param("n", 2)
+	CW := zzvp.Param("CW", 2)
+	var sb strings.Builder
+	var cl, cw []int
+	sb.WriteString("min:")
+	for v := 1; v <= n; v++ {
+		l := v
+		if zzvp.Choose("csign", 2) == 1 {
+			l = -v
+		}
+		w := zzvp.Concretize(zzvp.Int("cw", zzvp.Param("CWlo", 0), CW)) // negative coefficients: known finding
+		cl, cw = append(cl, l), append(cw, w)
+		if l > 0 {
+			fmt.Fprintf(&sb, " %d x%d", w, v)
+		} else {
+			fmt.Fprintf(&sb, " %d ~x%d", w, v)
+		}
+	}
+	sb.WriteString(" ;\n")
+	// one clause-like constraint so that the problem is not trivial
+	k := zzvp.Choose("k", n) + 1
+	var lits, ws []int
+	for i := 0; i < k; i++ {
+		l := i + 1
+		if zzvp.Choose("sign", 2) == 1 {
+			l = -l
+		}
+		lits, ws = append(lits, l), append(ws, 1)
+		if l > 0 {
+			fmt.Fprintf(&sb, "1 x%d ", l)
+		} else {
+			fmt.Fprintf(&sb, "1 ~x%d ", -l)
+		}
+	}
+	d := zzvp.Concretize(zzvp.Int("d", 1, k))
+	fmt.Fprintf(&sb, ">= %d ;\n", d)
+	text := sb.String()
+	zzvp.Obs("text", text)
+	refs := []vpRef{{lits, ws, 0, d}}
+	holds := func(a int) bool { return vpRefsHold(refs, a) }
+	min := vpMin(n, holds, func(a int) int { return vpCostA(cl, cw, a) })
+	pb1, err := ParseOPB(strings.NewReader(text))
+	zzvp.Assert(err == nil, "ParseOPB failed on a well-formed file")
+	if err != nil {
+		return
+	}
+	res := New(pb1).Optimal(nil, nil)
+	zzvp.Assert(res.Status == Sat, "a satisfiable problem is not answered Sat")
+	if res.Status == Sat {
+		zzvp.Assert(vpRefsHoldM(refs, res.Model), "Optimal: model does not satisfy the constraints")
+		zzvp.Assert(res.Weight == vpCostM(cl, cw, res.Model), "Optimal: reported cost differs from the cost of the returned model")
+		zzvp.Assert(res.Weight == min, "Optimal: reported cost is not the minimum")
+	}
+	pb2, _ := ParseOPB(strings.NewReader(text))
+	s2 := New(pb2)
+	c2 := s2.Minimize()
+	zzvp.Assert(c2 == min, "Minimize: returned cost is not the minimum")
+	zzvp.Reach("opb-optim")
+}
+
+// VP_KF_C03_1: concrete witness of known finding C03-negative-cost-coefficients.
+func VP_KF_C03_1() {
+	pb, err := ParseOPB(strings.NewReader("min: -2 x1 -1 x2 ;\n1 x1 >= 1 ;\n"))
+	zzvp.Assert(err == nil, "ParseOPB failed")
+	res := New(pb).Optimal(nil, nil)
+	zzvp.Assert(res.Status == Sat && res.Weight == -3, "optimum of -2 x1 - x2 subject to x1 is -3")
 }
